@@ -70,7 +70,7 @@ func Parse(b []byte) (*SignedData, error) {
 	if err != nil {
 		return nil, err
 	}
-	if top.Tag != 0x30 || top.Opaque {
+	if top.Tag != 0x30 {
 		return nil, errors.New("p7: top is not a SEQUENCE")
 	}
 	sd := &SignedData{Src: b}
@@ -81,7 +81,7 @@ func Parse(b []byte) (*SignedData, error) {
 			return nil, errors.New("p7: ContentInfo without content")
 		}
 		sdn = top.Children[1].Children[0]
-		if sdn.Tag != 0x30 || sdn.Opaque {
+		if sdn.Tag != 0x30 {
 			return nil, errors.New("p7: SignedData is not a SEQUENCE")
 		}
 	}
@@ -143,7 +143,7 @@ func Parse(b []byte) (*SignedData, error) {
 }
 
 func parseSigner(src []byte, sn *refder.Node) (*Signer, error) {
-	if sn.Tag != 0x30 || sn.Opaque {
+	if sn.Tag != 0x30 {
 		return nil, errors.New("p7: signerInfo is not a SEQUENCE")
 	}
 	k := sn.Children
